@@ -1195,3 +1195,35 @@ def v17_quotient_bookkeeping(ctx) -> None:
                                   "every factor, and the counted factor's terms lose the statistics of the parent")
     if n < 1:
         ctx.floor("V17", 99)
+
+
+def v18_class_objects_keep_nothing(ctx) -> None:
+    """The library's `CombinatorialClass` base keeps no state of its own: what a class is *called*
+    in a specification (F_<label>) is the specification's business and changes from one
+    specification to the next (expand_verified re-labels).  A method of the base class that
+    remembers something on the class object makes the first answer stick."""
+    P = ctx.P
+    cls = P.need_class("CombinatorialClass")
+    n = 0
+    for m in cls.methods.values():
+        if m.name == "__init__":
+            continue
+        n += 1
+        for x in walk_local(m.node):
+            hit = None
+            if isinstance(x, ast.Attribute) and isinstance(x.ctx, ast.Store) and isinstance(x.value, ast.Name) and x.value.id == "self":
+                hit = x
+            elif isinstance(x, ast.Subscript) and isinstance(x.ctx, ast.Store) and isinstance(x.value, ast.Attribute) and x.value.attr == "__dict__":
+                hit = x
+            elif isinstance(x, ast.Call) and isinstance(x.func, ast.Attribute) and x.func.attr in ("setdefault", "update") and isinstance(x.func.value, ast.Attribute) \
+                    and x.func.value.attr == "__dict__":
+                hit = x
+            elif isinstance(x, ast.Call) and isinstance(x.func, ast.Name) and x.func.id == "setattr" and x.args and norm(x.args[0]) == "self":
+                hit = x
+            if hit is not None:
+                ctx.violation("V18", hit, f"{m.qualname} remembers something on the class object (`{norm(C.stmt_of(hit))[:60]}`): the same class is labelled differently in another "
+                              "specification (after expand_verified, or in a verification strategy's own specification), and is then still called by its first name in the equations")
+    if n >= 5 and not any(v.rule == "V18" for v in ctx.violations):
+        ctx.ok("V18", f"the {n} methods of the CombinatorialClass base keep nothing on the object")
+    elif n < 5:
+        ctx.floor("V18", 99)
